@@ -3,6 +3,7 @@ package harness
 import (
 	"bytes"
 	"fmt"
+	"os"
 	"regexp"
 	"testing"
 	"unicode/utf8"
@@ -24,6 +25,7 @@ type C09Case struct {
 	Regexps     []string `json:"regexps"`
 	TakeN       []int    `json:"takeN"`                 // Readf functions: consume min(n, len) bytes
 	ReaderFirst bool     `json:"readerFirst,omitempty"` // NewReader before the base offset is assigned
+	ViaDisk     bool     `json:"viaDisk,omitempty"`     // the file is written to disk and loaded with text.ReadFile
 }
 
 func (c *C09Case) Describe() string {
@@ -72,6 +74,10 @@ func genC09(t *rapid.T) interface{} {
 	case 0:
 	case 1:
 		c.SetOffset = rapid.IntRange(1, 1000).Draw(t, "offset")
+		if rapid.IntRange(0, 3).Draw(t, "bigoffset") == 2 {
+			// beyond 8, 16 and 31 bits
+			c.SetOffset = rapid.SampledFrom([]int{255, 256, 65535, 65536, 70001, 1 << 20, 1<<31 - 64, 1 << 32}).Draw(t, "big")
+		}
 	default:
 		k := rapid.IntRange(1, 3).Draw(t, "npre")
 		for i := 0; i < k; i++ {
@@ -87,7 +93,7 @@ func genC09(t *rapid.T) interface{} {
 		j := rapid.IntRange(i+1, min(len(d), i+4)).Draw(t, label+"j")
 		return string(d[i:j])
 	}
-	c.Runes = []rune{'a', ' ', '\n', 'é', '😀', 0x7f, 0x80, 0xff}
+	c.Runes = []rune{'a', ' ', '\n', 'é', '😀', 0x7f, 0x80, 0xff, utf8.RuneError}
 	for i := 0; i < 2; i++ {
 		if len(d) > 0 {
 			r, _ := utf8.DecodeRune(d[rapid.IntRange(0, len(d)-1).Draw(t, "runeAt"):])
@@ -113,6 +119,7 @@ func genC09(t *rapid.T) interface{} {
 	c.Regexps = []string{"a+", "a|ab", "ab|a", "(a)(b)?", "\\s+", genRegexp(t), genRegexp(t)}
 	c.TakeN = []int{1, rapid.IntRange(1, 6).Draw(t, "take")}
 	c.ReaderFirst = rapid.IntRange(0, 2).Draw(t, "readerFirst") == 0
+	c.ViaDisk = rapid.IntRange(0, 5).Draw(t, "viaDisk") == 3
 	return c
 }
 
@@ -123,6 +130,13 @@ func modelPrefix(d []byte, o int, enc []byte) bool { return bytes.HasPrefix(d[o:
 func checkC09(ci interface{}, st *Stats) error {
 	c := ci.(*C09Case)
 	f := text.NewFile("main", c.Data)
+	if c.ViaDisk {
+		var err error
+		if f, _, err = fileViaDisk(c.Data); err != nil {
+			return Discard{"cannot write a temporary file: " + err.Error()}
+		}
+		st.Class("loaded with text.ReadFile")
+	}
 	d := normCRLF(c.Data)
 	var r *text.Reader
 	if c.ReaderFirst {
@@ -178,12 +192,23 @@ func checkC09(ci interface{}, st *Stats) error {
 			return nil
 		}
 		for _, ch := range c.Runes {
-			if !utf8.ValidRune(ch) || ch == utf8.RuneError {
+			if !utf8.ValidRune(ch) {
 				continue
 			}
-			enc := []byte(string(ch))
+			// specification: the next rune, as Go decodes it, is ch (for every valid rune other than
+			// U+FFFD that is "the encoding of ch is a prefix of the rest"; U+FFFD also stands for one
+			// undecodable byte); the position advances by the decoded width
+			wok, wlen := false, 0
+			if o < len(d) {
+				if dr, w := utf8.DecodeRune(d[o:]); dr == ch {
+					wok, wlen = true, w
+				}
+			}
+			if ch != utf8.RuneError && wok != modelPrefix(d, o, []byte(string(ch))) {
+				return fmt.Errorf("model error: decode and prefix specifications disagree for %q", ch)
+			}
 			np, ok := r.ReadRune(pos, ch)
-			if err := chk(fmt.Sprintf("ReadRune(%q)", ch), np, ok, modelPrefix(d, o, enc), len(enc)); err != nil {
+			if err := chk(fmt.Sprintf("ReadRune(%q)", ch), np, ok, wok, wlen); err != nil {
 				return err
 			}
 		}
@@ -340,6 +365,26 @@ func checkC09(ci interface{}, st *Stats) error {
 		st.NonTrivial()
 	}
 	return nil
+}
+
+// fileViaDisk writes the bytes to a temporary file and loads it with text.ReadFile.
+func fileViaDisk(data []byte) (*text.File, string, error) {
+	// in the shard's own scratch directory when run by ./check, else the system's temp directory
+	tmp, err := os.CreateTemp(os.Getenv("VERIF_OUT"), "verif-readfile-*")
+	if err != nil {
+		return nil, "", err
+	}
+	name := tmp.Name()
+	defer os.Remove(name)
+	if _, err := tmp.Write(data); err != nil {
+		tmp.Close()
+		return nil, "", err
+	}
+	if err := tmp.Close(); err != nil {
+		return nil, "", err
+	}
+	f, err := text.ReadFile(name)
+	return f, name, err
 }
 
 func isASCII(s string) bool {
